@@ -367,7 +367,12 @@ mk('C17', ['NAdv','AllocProofs','InvalidProofs','RevConv','RevBridge4','RevolveR
    lifted('C17_hopt_table_total','HRevTotal','hopt_table_total','get_hopt_table (K = 2) returns, with tables of the right dimensions whose column m = 0 of optp[1] is infinite from l = 2 on'),
    lifted('C17_revolve_family_rejects','InvalidProofs','revolve_rejects','Revolve family: max_n < 1 or no RAM unit for max_n > 1 is an exception at construction; that valid tuples always yield a complete stream is proved for Revolve, DiskRevolve, PeriodicDiskRevolve, HRevolve (C17_*_complete)')])
 C18_runs = safety('C18','C18','') + disk_safety('C18','C18') + hrev_safety('C18','C18')
-mk('C18', ['Repr','Ops','RevConv','RevBridge4','RevolveRun','DiskRun','OnlineWF','HRevRun','HRevTop','TLWF'], [C18_runs, lifted('C18_basic_wf_every_history','OnlineWF','basic_wf_every_history','NoneCheckpointSchedule, SingleMemoryStorageSchedule, SingleDiskStorageSchedule under EVERY history (requests, valid or rejected finalize calls, Run loops, in any order and number; any executor parameters): every yielded action is well formed (wf_action: the E_malformed requirements of the executor)'), lifted('C18_twolevel_wf_every_history','TLWF','twolevel_wf_every_history','TwoLevelCheckpointSchedule (period >= 1, binomial_snapshots >= 0, binomial storage RAM or DISK, both trajectories) under EVERY history: every yielded action is well formed -- an accepted finalize(k), wherever it comes, puts the object in the state of the canonical run for max_n = k'), lifted('C18_wf_not_malformed','OnlineWF','wf_not_malformed','wf_action is exactly what the executor needs not to report E_malformed'), lifted('C18_z_roundtrip','Repr','z_roundtrip','decimal printing of integers parses back')])
+mk('C18', ['Repr','ActVal','ActValProofs','Ops','RevConv','RevBridge4','RevolveRun','DiskRun','OnlineWF','HRevRun','HRevTop','TLWF'], [C18_runs, lifted('C18_basic_wf_every_history','OnlineWF','basic_wf_every_history','NoneCheckpointSchedule, SingleMemoryStorageSchedule, SingleDiskStorageSchedule under EVERY history (requests, valid or rejected finalize calls, Run loops, in any order and number; any executor parameters): every yielded action is well formed (wf_action: the E_malformed requirements of the executor)'), lifted('C18_twolevel_wf_every_history','TLWF','twolevel_wf_every_history','TwoLevelCheckpointSchedule (period >= 1, binomial_snapshots >= 0, binomial storage RAM or DISK, both trajectories) under EVERY history: every yielded action is well formed -- an accepted finalize(k), wherever it comes, puts the object in the state of the canonical run for max_n = k'), lifted('C18_wf_not_malformed','OnlineWF','wf_not_malformed','wf_action is exactly what the executor needs not to report E_malformed'), lifted('C18_z_roundtrip','Repr','z_roundtrip','decimal printing of integers parses back'), lifted('C18_repr_roundtrip','ActValProofs','repr_roundtrip','VALUE LAWS on the model ActVal (repr / the reading back of a repr / len / iteration / membership; tied to schedule.py by the val.act correspondence cases, which compare the texts and results with the implementation on directly constructed actions, and by the translation obligations of Gen/ActValGen.v): the text repr() prints, sys.maxsize special case included, reads back to the same action -- every action, every integer'),
+   lifted('C18_repr_injective','ActValProofs','repr_injective','... hence two actions with the same repr are the same action'),
+   lifted('C18_eq_is_equality','ActValProofs','act_eqb_eq','== holds exactly between actions of the same kind with equal parameters (total: never raises)'),
+   lifted('C18_eq_iff_repr','ActValProofs','eq_iff_repr','== holds iff the reprs are equal'),
+   lifted('C18_steps_enumerated','ActValProofs','steps_enumerated','Forward / Reverse covering n0 .. n1-1 (n0 <= n1): iteration yields a duplicate-free list of exactly the steps k with n0 <= k < n1, ascending for Forward and descending for Reverse, len is its length n1 - n0, and `k in a` holds exactly for its members'),
+   lifted('C18_no_steps_elsewhere','ActValProofs','no_steps','Copy, Move, EndForward, EndReverse define none of len / iteration / membership (TypeError)')])
 mk('C19', ['PeriodProofs','PeriodShape'], [lifted('C19_periodic_shape','PeriodShape','periodic_shape','the whole operation sequence, every l = max_n - 1 >= 0 and cm >= 1: sweep ++ revolve(last segment) ++ (Read_disk + revolve(one period)) per disk checkpoint, last first; k disk checkpoints, written exactly while more than mx steps remain; the pieces come from the memory-only generator `revolve` on the opt_0 table (the generator of class Revolve: C07) and contain no disk operation; hence disk writes only in the sweep at 0, mx, ..., (k-1) mx, none afterwards, and each disk checkpoint is read exactly once'), lifted('C19_periodic_sweep_writes','PeriodProofs','periodic_sweep_writes','disk writes of the forward sweep are exactly at 0, m, 2m, ... while more than m steps remain'),
    lifted('C19_period_closed_form','PeriodProofs','periodic_period_closed_form','the period is beta(cm, tm) with tm the least t such that beta(cm+1, t) uf > wd + rd; independent of N')])
 
